@@ -89,8 +89,8 @@ pub fn run(cx: &mut Ctx) {
         crate::pipe_wide::minmax_block(cx, &xo);
         crate::pipe_injoin::joinx_block(cx, &xo);
         crate::pipe_wide::wide_block(cx, &crate::pipe_wide::WIDE_ALL, cx.budget(12, 60), &xo);
-        crate::pipe_wide::many_keys_case(cx, vec![Step::Gbk, Step::Glen], &[Mode::Seq, Mode::Par(200), Mode::Par(256)]);
-        crate::pipe_wide::many_keys_case(cx, vec![Step::CombineValues(Comb::Sum)], &[Mode::Seq, Mode::Par(129)]);
+        crate::pipe_wide::many_keys_case(cx, vec![Step::Gbk, Step::Glen], &[Mode::Seq, Mode::Par(2), Mode::Par(200)]);
+        crate::pipe_wide::many_keys_case(cx, vec![Step::CombineValues(Comb::Sum)], &[Mode::Seq, Mode::Par(3), Mode::Par(129)]);
         // `collect_par(Some(t), Some(n))` for t = 1, 2, 3: one child process per t (the first caller installs the global pool)
         crate::pipe_wide::threads_block(cx, &xo);
         // SCHEDULES: barrier-free programs (answers compared as exact SEQUENCES) of 24..40 rows, one row per partition
